@@ -75,3 +75,32 @@ func vContains(s, sub string) bool {
 	}
 	return false
 }
+
+var vErrStop = errors.New("verif: stop after ECH key processing")
+
+// vTLSServerTry hands crypto/tls's server an ECH key (config + private key) and a
+// ClientHello that names the config id, and classifies the outcome: "badconfig" /
+// "badkey" when crypto/tls refuses the key material, "other" otherwise (the
+// handshake is stopped by GetConfigForClient right after ECH key processing; no
+// certificate is configured).
+func vTLSServerTry(cfgBytes, priv []byte, id byte) string {
+	cfg := &tls.Config{EncryptedClientHelloKeys: []tls.EncryptedClientHelloKey{{Config: cfgBytes, PrivateKey: priv}}, MinVersion: tls.VersionTLS13, SessionTicketsDisabled: true,
+		GetConfigForClient: func(*tls.ClientHelloInfo) (*tls.Config, error) { return nil, vErrStop }}
+	enc := make([]byte, 32)
+	enc[0] = 9
+	h := vHello{version: 0x0303, random: make([]byte, 32), sid: make([]byte, 32), suites: []byte{0x13, 0x01}, comp: []byte{0},
+		exts: []vExt{vSNI([]byte("pub.example")), vVersions(0x0304), {10, []byte{0, 2, 0, 29}}, {13, []byte{0, 2, 8, 4}},
+			{51, vCat([]byte{0, 36, 0, 29, 0, 32}, make([]byte, 32))}, vECHOuter(1, 1, id, enc, make([]byte, 40))}}
+	err := tls.Server(&vOneShotConn{in: h.record()}, cfg).Handshake()
+	if err == nil {
+		return "other"
+	}
+	msg := err.Error()
+	switch {
+	case vContains(msg, "invalid EncryptedClientHelloKeys Config"):
+		return "badconfig"
+	case vContains(msg, "invalid EncryptedClientHelloKeys PrivateKey"):
+		return "badkey"
+	}
+	return "other"
+}
